@@ -18,7 +18,7 @@ FAULT_KINDS = ("short", "empty", "raise")
 
 
 def jobs(tier):
-    return [("standalone", tier), ("lazy", tier)] + [(tier, c) for c in defs.chunks(defs.space(tier, "medium"), 24)]
+    return [("standalone", tier), ("lazy", tier), ("dynunion-faults", tier)] + [(tier, c) for c in defs.chunks(defs.space(tier, "medium"), 24)]
 
 
 def _parse_stream(T, stream):
@@ -335,9 +335,72 @@ def lazy(tier) -> JobResult:
     return res
 
 
+DYN_FAULT_DEFS = [
+    ("union U { uint8 n; char d[4]; struct { uint8 k; char s[k]; } v; }; struct T { U u; uint16 after; };", b"\x03abc\x11\x22"),
+    ("union U { uint8 n; char s[]; }; struct T { uint8 h; U u; uint8 t; };", b"\x07ab\x00\x09"),
+    ("struct dyn_t { uint8 n; char d[n]; }; union U { dyn_t d; uint16 w; }; struct T { U u; uint8 t; uint8 t2; };", b"\x02xy\x05\x06"),
+    ("union U { uint8 n; uleb128 v; }; struct T { U u; uint16 after; };", b"\x85\x01\x33\x44"),
+]
+
+
+def dynunion_faults(tier) -> JobResult:
+    """Dynamically sized unions (packed: every byte of the extent is data of some member): every cut and every short / empty / failing read call.
+    Whatever withholds a byte must raise; whatever returns must equal the fault-free value and leave the stream where the fault-free run leaves it."""
+    from dissect.cstruct import cstruct
+
+    res = JobResult()
+    for text, data in DYN_FAULT_DEFS:
+        for endian in "<>":
+            for compiled in (False, True):
+                cs = cstruct(endian=endian)
+                cs.load(text, compiled=compiled)
+                T = cs.T
+                probe = FaultyStream(data + b"\xee")
+                ok0, val0, exc0 = _parse_stream(T, probe)
+                tell0 = probe.tell()
+                nreads = len(probe.log)
+                case0 = {"dynunion": text, "endian": endian, "compiled": compiled}
+                if not ok0:
+                    res.violations.append(Violation("dynunion:raises", "dynunion:raises", case0, f"{text!r} on {data.hex()}: {impl.exc_sig(exc0)} {exc0!r}"))
+                    continue
+                for k in range(tell0):
+                    res.evaluations += 1
+                    res.states += 1
+                    res.nontrivial += 1
+                    ok, val, exc = _parse_stream(T, io.BytesIO(data[:k]))
+                    if ok:
+                        res.violations.append(Violation("cut:fabricated", "dynunion|cut:fabricated", dict(case0, cut=k), f"{text!r} on {data.hex()} cut at {k} (extent {tell0}): returned {val}"))
+                for i in range(nreads):
+                    for fk in FAULT_KINDS:
+                        fs = FaultyStream(data + b"\xee", i, fk)
+                        ok, val, exc = _parse_stream(T, fs)
+                        res.evaluations += 1
+                        res.states += 1
+                        res.transitions += 1
+                        if fs.injected is None:
+                            continue
+                        pos, want, got, avail = fs.injected
+                        if want is None or want < 0:
+                            continue
+                        withheld = fk == "raise" or got < min(want, avail)
+                        if not withheld:
+                            continue
+                        res.nontrivial += 1
+                        if ok and (fk == "raise" or pos + got < tell0):
+                            res.violations.append(Violation("fault:short-read-fabricated", "dynunion|fault:short-read-fabricated", dict(case0, read=i, fault=fk),
+                                f"{text!r} on {data.hex()}: {fk} at read #{i} (pos {pos}, want {want}, got {got}) but parse returned {val} and left the stream at {fs.tell()}; fault-free: {val0} at {tell0}"))
+                again = sc.parse(T, data + b"\xee")
+                if not (again.ok and same(again.value, val0)):
+                    res.violations.append(Violation("residue:after-fault", "dynunion|residue", case0, f"{text!r}: after the injected faults the full input parses as {again.value if again.ok else again.exc!r}"))
+    res.samples.append({"dynamic_union_faults": [d[0] for d in DYN_FAULT_DEFS]})
+    return res
+
+
 def run(job) -> JobResult:
     if job[0] == "standalone":
         return standalone(job[1])
+    if job[0] == "dynunion-faults":
+        return dynunion_faults(job[1])
     if job[0] == "lazy":
         return lazy(job[1])
     res = JobResult()
@@ -354,6 +417,8 @@ def replay(case):
         return [v for v in standalone("thorough").violations if v.case == case]
     if "lazy" in case:
         return [v for v in lazy("thorough").violations if v.case == case]
+    if "dynunion" in case:
+        return [v for v in dynunion_faults("thorough").violations if v.case == case]
     res = JobResult()
     check_case(tuple(case["atoms"]), case["endian"], case["align"], res, "thorough", only_input=case.get("input"))
     return res.violations
